@@ -37,6 +37,9 @@ CONSTANTS Clients,      \* client sessions
           UserNull,     \* TRUE: clients may also issue SET @x = NULL (stored by the proxy as a value)
           FailKinds,    \* subset of {"reject", "sqlmode"}: how the backend may refuse a SET
           TxOn,         \* TRUE: clients may also run statements inside BEGIN ... COMMIT
+          Repaired,     \* FALSE: the code as written.  TRUE: the proposed repair (out/proposed_fixes/C20-1.diff):
+                        \* a refused SET marks the bookkeeping "unsynced" and keeps the unused list, the next
+                        \* synchronisation writes the SET again
           MaxSets, MaxStmts, MaxFails   \* bounds (model checking only)
 
 None   == "d"       \* not set / server default
@@ -66,12 +69,12 @@ vars == <<tracked, believed, actual, idle, held, intx, busy, rejected, obs, nset
 
 NoVars    == [n \in Names |-> None]
 Setting0  == [cs |-> DefCs, vars |-> NoVars]
-Believed0 == [cs |-> DefCs, vars |-> NoVars, unused |-> {}]
+Believed0 == [cs |-> DefCs, vars |-> NoVars, unused |-> {}, unsynced |-> FALSE]
 NoObs     == [kind |-> "none"]
 
 ValsN == Vals \cup {None, Null}
 TypeOK == /\ tracked  \in [Clients -> [cs : CsVals, vars : [Names -> ValsN]]]
-          /\ believed \in [Conns -> [cs : CsVals, vars : [Names -> ValsN], unused : SUBSET Names]]
+          /\ believed \in [Conns -> [cs : CsVals, vars : [Names -> ValsN], unused : SUBSET Names, unsynced : BOOLEAN]]
           /\ actual   \in [Conns -> [cs : CsVals, vars : [Names -> Vals \cup {None}]]]
           /\ held \in [Clients -> Conns \cup {NoConn}]
           /\ intx \in [Clients -> {"no", "begun", "open"}]
@@ -110,11 +113,19 @@ SetEqualsWith(bv, bu, tv) ==
 
 (* ---- backend/direct_connection.go: WriteSetStatement: the text, as its effect on a backend   *)
 (* session when accepted: SET NAMES cs, every believed variable, then every unused = DEFAULT.   *)
+(* (the repair leaves out "n = DEFAULT" for an unused name that has been set again meanwhile)     *)
 ApplySet(a, b) ==
     [cs |-> b.cs,
-     vars |-> [n \in Names |-> IF n \in b.unused THEN None
+     vars |-> [n \in Names |-> IF n \in b.unused /\ (~Repaired \/ b.vars[n] = None) THEN None
                                ELSE IF b.vars[n] # None THEN Norm(b.vars[n])
                                ELSE a.vars[n]]]
+
+(* bookkeeping after WriteSetStatement: the unused list is taken before the SET is sent; as written it is  *)
+(* gone whatever the backend answers; repaired, a refusal puts it back and marks the state unsynced        *)
+Written(b, accepted) ==
+    IF accepted THEN [b EXCEPT !.unused = {}, !.unsynced = FALSE]
+    ELSE IF Repaired THEN [b EXCEPT !.unsynced = TRUE]
+    ELSE [b EXCEPT !.unused = {}]
 
 (* ---- mysql/variables.go: Reset(err) applied to the *session's* variables after a rejected SET *)
 ResetAfter(t, kind) ==
@@ -127,8 +138,8 @@ ResetAfter(t, kind) ==
 Plan(b, t, withCharset) ==
     LET sew == SetEqualsWith(b.vars, b.unused, t.vars)
         csChanged == withCharset /\ b.cs # t.cs
-    IN [b |-> [cs |-> IF withCharset THEN t.cs ELSE b.cs, vars |-> sew.vars, unused |-> sew.unused],
-        send |-> (csChanged \/ sew.changed)]
+    IN [b |-> [cs |-> IF withCharset THEN t.cs ELSE b.cs, vars |-> sew.vars, unused |-> sew.unused, unsynced |-> b.unsynced],
+        send |-> (csChanged \/ sew.changed \/ (Repaired /\ b.unsynced))]
 
 KindOK(kind, b) == /\ kind \in FailKinds
                    /\ kind = "sqlmode" => \E n \in SqlModeVars : b.vars[n] # None
@@ -157,7 +168,6 @@ Failed(c, k)     == [kind |-> "rejected", client |-> c, conn |-> k]
 SyncAndRun(c, k, fail) ==
     LET t == tracked[c]
         p == Plan(believed[k], t, TRUE)
-        b1 == [p.b EXCEPT !.unused = {}]      \* GetUnusedAndClear runs before the SET is sent
     IN IF ~p.send
        THEN /\ fail = "none"
             /\ believed' = [believed EXCEPT ![k] = p.b]
@@ -165,13 +175,13 @@ SyncAndRun(c, k, fail) ==
             /\ busy' = [busy EXCEPT ![c] = TRUE]
             /\ UNCHANGED <<actual, tracked, rejected, nfails>>
        ELSE IF fail = "none"
-       THEN /\ believed' = [believed EXCEPT ![k] = b1]
+       THEN /\ believed' = [believed EXCEPT ![k] = Written(p.b, TRUE)]
             /\ actual' = [actual EXCEPT ![k] = ApplySet(actual[k], p.b)]
             /\ obs' = Ran(c, k, actual'[k], t)
             /\ busy' = [busy EXCEPT ![c] = TRUE]
             /\ UNCHANGED <<tracked, rejected, nfails>>
        ELSE /\ KindOK(fail, p.b) /\ nfails < MaxFails
-            /\ believed' = [believed EXCEPT ![k] = b1]          \* bookkeeping stays ahead of the backend
+            /\ believed' = [believed EXCEPT ![k] = Written(p.b, FALSE)]   \* as written: bookkeeping stays ahead of the backend
             /\ tracked' = [tracked EXCEPT ![c] = ResetAfter(t, fail)]
             /\ rejected' = [rejected EXCEPT ![k] = TRUE]
             /\ obs' = Failed(c, k)
@@ -211,7 +221,6 @@ TxFirst(c, txfail, fail) ==
     /\ LET k == Head(idle)
            t == tracked[c]
            p == Plan(believed[k], t, FALSE)
-           b1 == [p.b EXCEPT !.unused = {}]
        IN IF p.send /\ txfail # "none"
           THEN (* rejected: pc.Close(); pc.Recycle() -> the slot gets a new backend session; the   *)
                (* session keeps its settings (no Reset on this path) and stays in "begun"          *)
@@ -224,10 +233,9 @@ TxFirst(c, txfail, fail) ==
                /\ nfails' = nfails + 1
                /\ UNCHANGED <<tracked, held, intx, busy>>
           ELSE /\ txfail = "none"
-               /\ LET bel1 == [believed EXCEPT ![k] = IF p.send THEN b1 ELSE p.b]
+               /\ LET bel1 == [believed EXCEPT ![k] = IF p.send THEN Written(p.b, TRUE) ELSE p.b]
                       act1 == [actual EXCEPT ![k] = IF p.send THEN ApplySet(actual[k], p.b) ELSE actual[k]]
                       q  == Plan(bel1[k], t, TRUE)
-                      c1 == [q.b EXCEPT !.unused = {}]
                   IN IF ~q.send
                      THEN /\ fail = "none"
                           /\ believed' = [bel1 EXCEPT ![k] = q.b]
@@ -236,13 +244,13 @@ TxFirst(c, txfail, fail) ==
                           /\ busy' = [busy EXCEPT ![c] = TRUE]
                           /\ UNCHANGED <<tracked, rejected, nfails>>
                      ELSE IF fail = "none"
-                     THEN /\ believed' = [bel1 EXCEPT ![k] = c1]
+                     THEN /\ believed' = [bel1 EXCEPT ![k] = Written(q.b, TRUE)]
                           /\ actual' = [act1 EXCEPT ![k] = ApplySet(act1[k], q.b)]
                           /\ obs' = Ran(c, k, actual'[k], t)
                           /\ busy' = [busy EXCEPT ![c] = TRUE]
                           /\ UNCHANGED <<tracked, rejected, nfails>>
                      ELSE /\ KindOK(fail, q.b) /\ nfails < MaxFails
-                          /\ believed' = [bel1 EXCEPT ![k] = c1]
+                          /\ believed' = [bel1 EXCEPT ![k] = Written(q.b, FALSE)]
                           /\ actual' = act1
                           /\ tracked' = [tracked EXCEPT ![c] = ResetAfter(t, fail)]
                           /\ rejected' = [rejected EXCEPT ![k] = TRUE]
@@ -308,7 +316,7 @@ BelievedView(b) == [cs |-> b.cs, vars |-> [n \in Names |-> IF n \in b.unused THE
 BelievedIsActual == \A k \in Conns : ~rejected[k] => BelievedView(believed[k]) = actual[k]
 
 (* the unused list never survives a synchronisation *)
-UnusedDrained == \A k \in Conns : believed[k].unused = {}
+UnusedDrained == \A k \in Conns : believed[k].unsynced \/ believed[k].unused = {}
 
 (* a connection is idle or held by exactly one client *)
 PoolSound == /\ \A i, j \in 1..Len(idle) : i # j => idle[i] # idle[j]
